@@ -76,6 +76,20 @@ def eval_case(args):
         mon.append(('C01-length-prefix', f'{s["name"]}.{d}: prefix {n} != {len(data) - 4}', None))
     code = data[4:4 + s['id_width']]
     out['code'] = int.from_bytes(code, 'little')
+    # serialize_into appends exactly the frame, whatever the buffer already holds (batched messages)
+    try:
+        for prefix in (b'\x07', data):
+            buf = bytearray(prefix)
+            obj.serialize_into(buf, compress=bool(s['compress']))   # the flag serialize() passes for this class
+            if bytes(buf) != prefix + data:
+                (n2,) = struct.unpack('<I', bytes(buf[len(prefix):len(prefix) + 4]).ljust(4, b'\0'))
+                mon.append(('C01-length-prefix' if bytes(buf[len(prefix) + 4:]) == data[4:] else 'C01-roundtrip',
+                            f'{s["name"]}.{d}: serialize_into a buffer already holding {len(prefix)} byte(s) appends '
+                            f'{bytes(buf[len(prefix):])[:24].hex()}…, prefix {n2}, expected the frame {data[:24].hex()}… '
+                            f'({len(data) - 4} bytes follow)', None))
+                break
+    except Exception as e:  # noqa: BLE001
+        mon.append(('C01-roundtrip', f'{s["name"]}.{d}: serialize_into a non-empty buffer raised {type(e).__name__}: {e}', None))
     # connection level, obfuscated + plain
     try:
         from aioslsk.network.connection import PeerConnection, ServerConnection, PeerConnectionState
